@@ -41,12 +41,15 @@ pub struct Case {
     pub table: Vec<f32>,
     /// seed of the content-based distance function (method 3)
     pub seed: u64,
+    /// subtracted from every content-based distance (negative and mixed-sign distances)
+    #[serde(default)]
+    pub shift: f32,
 }
 
 const METHODS: [&str; 4] = ["single", "complete", "average", "union"];
 
 /// symmetric pseudo-random distance of two sets, a function of their contents only
-fn content_distance(seed: u64, a: &BTreeSet<u32>, b: &BTreeSet<u32>) -> f32 {
+fn content_distance(seed: u64, shift: f32, a: &BTreeSet<u32>, b: &BTreeSet<u32>) -> f32 {
     let h = |s: &BTreeSet<u32>| {
         let mut f = Fnv::new();
         f.u64(seed);
@@ -61,7 +64,7 @@ fn content_distance(seed: u64, a: &BTreeSet<u32>, b: &BTreeSet<u32>) -> f32 {
     f.u64(lo);
     f.u64(hi);
     // 24 bit mantissa: exactly representable, distinct with high probability
-    ((f.finish() >> 40) as f32 + 1.0) / 16_777_216.0
+    ((f.finish() >> 40) as f32 + 1.0) / 16_777_216.0 - shift
 }
 
 pub fn check(c: &Case, stats: &mut Stats) -> CheckResult {
@@ -79,6 +82,7 @@ pub fn check(c: &Case, stats: &mut Stats) -> CheckResult {
     let log: RefCell<Vec<Vec<(BTreeSet<u32>, BTreeSet<u32>)>>> = RefCell::new(Vec::new());
     let table = &c.table;
     let seed = c.seed;
+    let shift = c.shift;
     let distance = |combs: Combinations<HpoSet<'_>>| -> Vec<f32> {
         let mut asked = Vec::new();
         let mut out = Vec::new();
@@ -86,7 +90,7 @@ pub fn check(c: &Case, stats: &mut Stats) -> CheckResult {
             let ca: BTreeSet<u32> = a.iter().map(|t| t.id().as_u32()).collect();
             let cb: BTreeSet<u32> = b.iter().map(|t| t.id().as_u32()).collect();
             let d = if method == 3 {
-                content_distance(seed, &ca, &cb)
+                content_distance(seed, shift, &ca, &cb)
             } else {
                 match (by_content.get(&ca), by_content.get(&cb)) {
                     (Some(i), Some(j)) => table[i * n + j],
@@ -142,7 +146,7 @@ pub fn check(c: &Case, stats: &mut Stats) -> CheckResult {
     let mut dist: BTreeMap<(usize, usize), f32> = BTreeMap::new();
     for i in 0..n {
         for j in i + 1..n {
-            let d = if method == 3 { content_distance(seed, &contents[i], &contents[j]) } else { table[i * n + j] };
+            let d = if method == 3 { content_distance(seed, shift, &contents[i], &contents[j]) } else { table[i * n + j] };
             dist.insert((i, j), d);
         }
     }
@@ -179,7 +183,7 @@ pub fn check(c: &Case, stats: &mut Stats) -> CheckResult {
                     if d1 > d2 { d1 } else { d2 }
                 }
                 2 => (d1 + d2) / 2.0,
-                _ => content_distance(seed, &merged, &content[x]),
+                _ => content_distance(seed, shift, &merged, &content[x]),
             };
             dist.insert(key(*x, new), nd);
         }
@@ -209,6 +213,12 @@ pub fn check(c: &Case, stats: &mut Stats) -> CheckResult {
     // (how often the callback is invoked after the initial call is not part of the property)
     stats.count(&format!("callback-invocations:{mname}"), log.len() as u64);
     stats.label(mname);
+    let neg = clusters.iter().filter(|c| c.2 < 0.0).count();
+    if neg == clusters.len() {
+        stats.label("all-merge-distances-negative");
+    } else if neg > 0 {
+        stats.label("mixed-sign-distances");
+    }
     if tie_seen {
         stats.label("tie");
     }
@@ -225,8 +235,8 @@ pub fn check(c: &Case, stats: &mut Stats) -> CheckResult {
 
 fn strategy(tier: Tier) -> BoxedStrategy<Case> {
     let max = if tier == Tier::Quick { 24usize } else { 40 };
-    (2..=max, 0u8..4, vec(any::<u16>(), NT as usize), vec(0u8..8, 40), vec(any::<u32>(), 40 * 40), any::<u64>(), proptest::bool::weighted(0.15))
-        .prop_map(|(n, method, keys, extra, raw, seed, coarse)| {
+    (2..=max, 0u8..4, vec(any::<u16>(), NT as usize), vec(0u8..8, 40), vec(any::<u32>(), 40 * 40), any::<u64>(), proptest::bool::weighted(0.15), 0u8..4)
+        .prop_map(|(n, method, keys, extra, raw, seed, coarse, sign)| {
             // a random partition of a prefix of the 96 terms into n non-empty sets
             let mut order: Vec<(u16, u32)> = keys.iter().enumerate().map(|(i, k)| (*k, i as u32 + 1)).collect();
             order.sort();
@@ -253,7 +263,23 @@ fn strategy(tier: Tier) -> BoxedStrategy<Case> {
                     table[j * n + i] = v;
                 }
             }
-            Case { method, sets, table, seed }
+            // sign classes: all positive / mixed (centred) / all negative / around zero incl. -0.0
+            let max = table.iter().copied().fold(0.0f32, f32::max);
+            let table_shift = match sign {
+                0 => 0.0,
+                1 => max / 2.0,
+                2 => max + 1.0,
+                _ => table.iter().copied().filter(|v| *v > 0.0).fold(f32::INFINITY, f32::min).min(max),
+            };
+            for i in 0..n {
+                for j in 0..n {
+                    if i != j {
+                        table[i * n + j] -= table_shift;
+                    }
+                }
+            }
+            let shift = [0.0f32, 0.5, 2.0, 0.25][sign as usize];
+            Case { method, sets, table, seed, shift }
         })
         .boxed()
 }
@@ -263,7 +289,7 @@ impl Property for C17 {
         "C17"
     }
     fn rule(&self) -> String {
-        "Generated: n in 2..=24 (thorough 40) pairwise disjoint input sets (mostly singletons, some with 2-3 terms) over a flat 96-term ontology; for single/complete/average a generated symmetric table of initial distances (distinct values, or few values so that ties are frequent); for union a symmetric pseudo-random distance that is a function of the two sets' contents, so merged sets get fresh values. Oracle = validity predicate simulated along the library's own merge choices (ties admit several dendrograms): exactly n-1 merges; each merge joins two live, different clusters (inputs or earlier merges n+k), so every input and intermediate cluster is merged exactly once and one cluster remains; the reported distance equals the pair's current distance bit for bit and no live pair is strictly closer; distances to the new cluster follow the method (min / max / mean of the two parts in f32 / content function of the union); len adds up and is n at the last merge; indicies() is a permutation of 0..n; cluster(), iter(), &linkage and into_cluster() agree; the first callback invocation asks every unordered pair of inputs exactly once (later invocations, which also pair the new set with itself, are not constrained). evaluations = clusterings. Non-trivial = n >= 4 and some merge joins two earlier clusters; distinct by hash of the case.".into()
+        "Generated: n in 2..=24 (thorough 40) pairwise disjoint input sets (mostly singletons, some with 2-3 terms) over a flat 96-term ontology; for single/complete/average a generated symmetric table of initial distances (distinct values, or few values so that ties are frequent; shifted so that distances are all positive, mixed-sign, all negative or touch zero); for union a symmetric pseudo-random distance that is a function of the two sets' contents, so merged sets get fresh values. Oracle = validity predicate simulated along the library's own merge choices (ties admit several dendrograms): exactly n-1 merges; each merge joins two live, different clusters (inputs or earlier merges n+k), so every input and intermediate cluster is merged exactly once and one cluster remains; the reported distance equals the pair's current distance bit for bit and no live pair is strictly closer; distances to the new cluster follow the method (min / max / mean of the two parts in f32 / content function of the union); len adds up and is n at the last merge; indicies() is a permutation of 0..n; cluster(), iter(), &linkage and into_cluster() agree; the first callback invocation asks every unordered pair of inputs exactly once (later invocations, which also pair the new set with itself, are not constrained). evaluations = clusterings. Non-trivial = n >= 4 and some merge joins two earlier clusters; distinct by hash of the case.".into()
     }
     fn assumptions(&self) -> Vec<String> {
         vec![
@@ -278,7 +304,7 @@ impl Property for C17 {
         }
     }
     fn required_labels(&self, _tier: Tier) -> Vec<&'static str> {
-        vec!["nontrivial", "single", "complete", "average", "union", "tie", "multi-term-inputs"]
+        vec!["nontrivial", "single", "complete", "average", "union", "tie", "multi-term-inputs", "all-merge-distances-negative", "mixed-sign-distances"]
     }
     fn run_generated(&self, tier: Tier, seed: u64, n: u64, stats: &mut Stats) -> Option<(Value, Failure)> {
         run_typed(strategy(tier), seed, n, stats, check)
